@@ -1024,8 +1024,11 @@ def _run_hist(case):
     for ev in case["events"]:
         if ev[0] == "fit":
             if ev[1]:
-                r = _fit(est, fam)
-                res.append("ReturnsSelf" if r is est else "returned-other")
+                try:
+                    r = _fit(est, fam)
+                    res.append("ReturnsSelf" if r is est else "returned-other")
+                except Exception as e:      # a fit on valid data must not raise
+                    res.append("fit-raised-" + type(e).__name__)
             else:
                 try:      # a fit that fails inside input validation
                     if fam == "forecaster":
